@@ -172,6 +172,8 @@ type input struct {
 	PayLen int   `json:"paylen,omitempty"`
 	Shape  int   `json:"shape,omitempty"`
 	BufLen int   `json:"buflen,omitempty"` // size of the buffer handed to Read
+	Pad    int   `json:"pad,omitempty"`    // rtp-write: 1 = padding bit with PaddingSize 0 (legacy form), 2 = PaddingSize 4
+	Fill   int   `json:"fill,omitempty"`   // rtp-write: value of the last payload byte (legacy padding count)
 	K      int64 `json:"k"`
 }
 
@@ -340,7 +342,7 @@ func genInput(r *rand.Rand, k int64) input {
 	switch r.Intn(3) {
 	case 0:
 		in.Path = "rtp-read"
-		switch r.Intn(8) {
+		switch r.Intn(12) {
 		case 0:
 			in.Kind = "random-bytes"
 			b := make([]byte, r.Intn(64))
@@ -364,6 +366,9 @@ func genInput(r *rand.Rand, k int64) input {
 		default:
 			in.Kind = "valid"
 			in.Hex = hex.EncodeToString(validRTP(r, seq, r.Intn(6), []int{0, 1, 100, 1200, 1460}[r.Intn(5)]))
+			if r.Intn(3) == 0 { // read with a buffer just large enough for this packet
+				in.BufLen = len(in.Hex) / 2
+			}
 		}
 	case 1:
 		in.Path = "rtcp-read"
@@ -400,7 +405,7 @@ func genInput(r *rand.Rand, k int64) input {
 	default:
 		in.Path = "rtp-write"
 		in.Shape = r.Intn(6)
-		switch r.Intn(6) {
+		switch r.Intn(7) {
 		case 0:
 			in.Kind = "payload-1460"
 			in.PayLen = 1460
@@ -412,9 +417,23 @@ func genInput(r *rand.Rand, k int64) input {
 			in.PayLen = 1462 + r.Intn(64000)
 		case 3:
 			in.Kind = "payload-0"
+		case 4:
+			in.Kind = "payload-near-1500"
+			in.PayLen = 1470 + r.Intn(45)
 		default:
 			in.Kind = "payload-normal"
 			in.PayLen = r.Intn(1400)
+		}
+		switch r.Intn(8) {
+		case 0:
+			in.Pad, in.Fill = 1, []int{0, 1, 3, 200, 255}[r.Intn(5)]
+			in.Kind += "+legacy-padding"
+			if r.Intn(2) == 0 {
+				in.PayLen = r.Intn(3)
+			}
+		case 1:
+			in.Pad = 2
+			in.Kind += "+padding"
 		}
 	}
 
@@ -424,6 +443,7 @@ func genInput(r *rand.Rand, k int64) input {
 // ---------------------------------------------------------------- worker
 
 type rig struct {
+	wseq, rseq uint16 // consecutive sequence numbers of outgoing packets / valid incoming packets
 	ic        interceptor.Interceptor
 	rtpReader interceptor.RTPReader
 	rtcpRead  interceptor.RTCPReader
@@ -488,6 +508,10 @@ func (g *rig) apply(in input, r *rand.Rand) outcome {
 		switch in.Path {
 		case "rtp-read", "rtcp-read":
 			raw, _ := hex.DecodeString(in.Hex)
+			if in.Path == "rtp-read" && (in.Kind == "valid" || in.Kind == "small-buffer" || in.Kind == "probe") && len(raw) >= 12 {
+				g.rseq++
+				raw[2], raw[3] = byte(g.rseq>>8), byte(g.rseq)
+			}
 			g.feed = raw
 			buf := make([]byte, in.BufLen)
 			o.Given = len(raw)
@@ -506,16 +530,27 @@ func (g *rig) apply(in input, r *rand.Rand) outcome {
 				o.Err = err.Error()
 			}
 		default:
-			raw := validRTP(r, uint16(in.K), in.Shape, 0) //nolint:gosec
+			g.wseq++
+			raw := validRTP(r, g.wseq, in.Shape, 0)
 			h := &rtp.Header{}
 			if _, err := h.Unmarshal(raw); err != nil {
 				panic(err)
 			}
 			h.Padding, h.PaddingSize = false, 0
-			if in.Shape%6 != 5 {
-				_ = h.SetExtension(1, []byte{byte(in.K >> 8), byte(in.K)})
+			switch in.Pad {
+			case 1:
+				h.Padding = true
+			case 2:
+				h.Padding, h.PaddingSize = true, 4
 			}
-			n, err := g.writer.Write(h, make([]byte, in.PayLen), interceptor.Attributes{})
+			if in.Shape%6 != 5 {
+				_ = h.SetExtension(1, []byte{byte(g.wseq >> 8), byte(g.wseq)})
+			}
+			payload := make([]byte, in.PayLen)
+			if in.PayLen > 0 {
+				payload[in.PayLen-1] = byte(in.Fill)
+			}
+			n, err := g.writer.Write(h, payload, interceptor.Attributes{})
 			o.N = n
 			if err != nil {
 				o.Err = err.Error()
@@ -577,7 +612,9 @@ func worker(name string, seed int64, n, from int64) {
 		case o.Hang:
 			emit(finding{K: k, Kind: "hang", Detail: "call did not return within 3s", In: in})
 			os.Exit(0)
-		case in.Path != "rtp-write" && o.N > o.Given:
+		case in.Path != "rtp-write" && o.N > o.Given && !(name == "jitterbuffer" && o.N <= in.BufLen):
+			// (the jitter buffer hands back an EARLIER packet, which may be longer than the one just read: there the
+			// bound is the caller's buffer)
 			emit(finding{K: k, Kind: "more-bytes", Detail: fmt.Sprintf("reported %d bytes, was given %d", o.N, o.Given), In: in})
 		}
 		// probe: a well-formed packet on the same path must still be processed
@@ -597,7 +634,7 @@ func worker(name string, seed int64, n, from int64) {
 			os.Exit(0)
 		case po.Err != "" && !allowedProbeErr(name, po.Err):
 			emit(finding{K: k, Kind: "probe-failed", Detail: po.Err, In: in})
-		case in.Path != "rtp-write" && po.Err == "" && po.N != po.Given:
+		case in.Path != "rtp-write" && po.Err == "" && po.N != po.Given && name != "jitterbuffer":
 			emit(finding{K: k, Kind: "probe-failed", Detail: fmt.Sprintf("probe returned %d bytes of %d", po.N, po.Given), In: in})
 		}
 		if k%64 == 63 {
